@@ -58,7 +58,7 @@ fn end_timer(t: T, how: End) -> Option<f64> {
 }
 
 /// 28 timers (shared / local x precise / coarse clock x three ways of ending), started 45 ms apart on their own threads and
-/// held for 120 ms each, so that together they are alive across every instant of more than a second (any whole-second or
+/// held for 120 ms each (the first four for 1.1 s), so that together they are alive across every instant of more than a second (any whole-second or
 /// other clock boundary included). Each works on its own histogram. The recorded duration must lie between what the harness
 /// measured inside the timer's lifetime and around it (std::time::Instant, the same monotonic clock), with 30 ms of
 /// tolerance for the coarse clock's tick and millisecond truncation. Returns the number of timers checked.
@@ -83,7 +83,8 @@ fn held_timers() -> Result<usize, (String, String)> {
                         (true, true) => T::Local(local.start_coarse_timer()),
                     };
                     let inner0 = Instant::now();
-                    std::thread::sleep(Duration::from_millis(120));
+                    // the first four (one of every clock / kind) stay alive for more than a second
+                    std::thread::sleep(Duration::from_millis(if k < 4 { 1100 } else { 120 }));
                     let inner = inner0.elapsed().as_secs_f64();
                     let returned = end_timer(t, how);
                     let outer = outer0.elapsed().as_secs_f64();
@@ -127,7 +128,7 @@ impl Property for C18 {
          it to a freshly spawned thread (joined at once), observe_closure_duration / observe_closure_duration_coarse on the shared or a local histogram (the closure optionally observes / times / reads the same histogram), local flush / \
          clear / drop, create local. Oracle: count model (shared count and every local's pending count after every operation; +1 \
          exactly for record/drop, +0 for discard; a local timer's observation reaches the shared histogram when the timer dies), \
-         returned durations finite and >= 0 (a final stage holds 28 timers of every flavour for 120 ms, staggered over more than a second, and requires the recorded duration to lie within the measured lifetime +- 30 ms), and the shared sample sum grows by exactly the returned duration. Non-trivial: >=3 \
+         returned durations finite and >= 0 (a final stage holds 28 timers of every flavour for 120 ms - four of them for 1.1 s -, staggered over more than a second, and requires the recorded duration to lie within the measured lifetime +- 30 ms), and the shared sample sum grows by exactly the returned duration. Non-trivial: >=3 \
          timers alive at once, ended in an order different from creation, with >=1 discard and >=1 cross-thread end. \
          Distinct = decoded choices."
     }
